@@ -123,6 +123,18 @@ Section JsLexProofs.
       rewrite slice_ok by (fold n; destruct Hs as [[-> ?]|[-> ?]]; lia). cbn [bind]. eexists; reflexivity.
   Qed.
 
+  Lemma run_jstemplate_tail_total : 1 <= n -> safe (run_jstemplate_tail text).
+  Proof.
+    intros Hn. unfold run_jstemplate_tail, safe.
+    assert (Hw0 : wf (mkLx 1 96 0)) by (unfold CssLexProofs.wf; cbn [cur]; fold n; lia).
+    destruct (step_spec2 _ Hw0) as (l1 & -> & Hw1 & Hr1 & _ & _ & Hq1 & _ & _ & Hmn1). cbn [bind cur] in *.
+    assert (Hi1 : inv l1) by (unfold inv; split; [lia|split; [lia|exact Hq1]]).
+    destruct (jstr_loop_spec (lex_fuel text) 96 l1 Hw1 Hi1 ltac:(unfold eof; lia) (mu_bound text l1 Hw1)) as (r & -> & Hpost).
+    cbn [bind]. destruct r as [[s l2]|]; [|eexists; reflexivity].
+    cbn [jstr_post] in Hpost. destruct Hpost as (Hw2 & Hle & Hs).
+    rewrite slice_ok by (fold n; destruct Hs as [[-> ?]|[-> ?]]; lia). cbn [bind]. eexists; reflexivity.
+  Qed.
+
   (* ---- ScanRegExp ---- *)
   Variable idc : Z -> bool.
   Hypothesis idc_eof : idc eof = false.
